@@ -103,6 +103,14 @@ CHECKS.append({
     "technique": "Coq proof over the driver model + regenerated source obligation + model/implementation correspondence + metamorphic multi-pipeline runs",
 })
 
+CHECKS.append({
+    "property_id": "C05",
+    "text": "Theorems on the slot-assignment model shared with C06 (tables regenerated from the sources): every declaration list gives exactly one binding record to each constant buffer and each extern object-typed global that is not a shader-implemented static sampler, in its own or the default group, and none to static globals; for every HLSL parameter record the inline descriptor struct of a group holds one 8-byte member per inline binding at offsets 0, 8, 16, ... and its size equals the size reported in the metadata (the exporter's two assertions never fire). On the implementation, every compiled pipeline's emitted text is parsed (register / vk::binding / vk::offset annotations, ArgumentBuffer [[id(n)]] members, numthreads, defined functions) and compared with the returned metadata: name, group, slot or inline offset, descriptor type, count, one entry per bound declaration and no entry without one, entry points defined in the text with the reported thread-group size, and on Metal is_used exactly for the globals the entry point reaches directly or through a helper. One defect was repaired (static resource globals were given slots and metadata entries).",
+    "design_ref": "DESIGN.md §4 C05",
+    "note": "Partial: agreement between printed annotations and metadata is decided on the implementation's output by the parser oracle (a test), the Coq theorems cover the shared record (who gets one, inline struct layout). Trusted: Coq kernel, translator, tools/c05ref.py.",
+    "technique": "Coq proof on the slot-assignment model + emitted-text/metadata cross-check oracle on generated resource programs",
+})
+
 _claimed = {c["property_id"] for c in CHECKS}
 NOT_APPLICABLE = [
     {"property_id": p, "reason": "not yet claimed: model/theorems under construction (see DESIGN.md build order); no check registered until it passes on the unchanged tree"}
